@@ -14,6 +14,21 @@ use crate::common::time::clock::Mock;
 /// a recorded simulation means the same thing on every machine.
 pub const SHARD_AMOUNT: usize = 4;
 
+thread_local! {
+    static SHARDS: std::cell::Cell<usize> = const { std::cell::Cell::new(SHARD_AMOUNT) };
+}
+
+/// Chooses the number of DashMap shards (a power of two greater than one) of the caches
+/// the calling thread builds from now on. Default: [`SHARD_AMOUNT`].
+pub fn set_shard_amount(n: usize) {
+    assert!(n > 1 && n.is_power_of_two());
+    SHARDS.with(|s| s.set(n));
+}
+
+pub(crate) fn shard_amount() -> usize {
+    SHARDS.with(|s| s.get())
+}
+
 /// Callbacks a simulator provides. All methods are called on the thread that reached
 /// the hook.
 pub trait Hooks: Send + Sync {
